@@ -6,6 +6,8 @@ import (
 	"strings"
 
 	"github.com/henrylee2cn/erpc/v6/socket"
+
+	"verif/shim/vnet"
 )
 
 // Frames for protocols other than raw are produced and parsed with the protocol's own Pack/Unpack (their
@@ -85,5 +87,30 @@ func DecodeFrames(proto string, b []byte) (frames []Frame, rest []byte, err erro
 		}
 		f.Pipe = append([]byte{}, m.XferPipe().IDs()...)
 		frames = append(frames, f)
+	}
+}
+
+// ReadFrameOf reads one frame of the named protocol from c (model-blocking). ok=false on EOF/error before a whole frame.
+func ReadFrameOf(c *vnet.Conn, proto string) (Frame, bool) {
+	if proto == "" || proto == "raw" {
+		return ReadFrame(c)
+	}
+	var buf []byte
+	one := make([]byte, 1)
+	for {
+		if fs, _, _ := DecodeFrames(proto, buf); len(fs) > 0 {
+			return fs[0], true
+		}
+		n, err := c.Read(one)
+		if n == 1 {
+			buf = append(buf, one[0])
+		}
+		if err != nil || n == 0 {
+			fs, _, _ := DecodeFrames(proto, buf)
+			if len(fs) > 0 {
+				return fs[0], true
+			}
+			return Frame{}, false
+		}
 	}
 }
